@@ -42,7 +42,8 @@ theorem scan_ref (q : Option Char) (b0 b1 : Char) (buf rest : List Char) (ch : C
 
 /-- the quotes this library's writer and reader agree on: none (character data) or `"` -/
 def QuoteOK (m : Mode) (q : Option Char) : Prop :=
-  (q = none ∧ m = .canonText) ∨ (q = some '"' ∧ m = .normal) ∨ (q = some '"' ∧ m = .canonAttr) ∨ (q = none ∧ m = .normal)
+  (q = none ∧ m = .canonText) ∨ (q = some '"' ∧ m = .normal) ∨ (q = some '"' ∧ m = .canonAttr) ∨ (q = none ∧ m = .normal) ∨
+  (q = some '"' ∧ m = .attrCR)
 
 /-- side condition under which a mode is lossless: the normal mode writes CR raw, the canonical
     attribute mode writes `>` raw -/
@@ -65,13 +66,13 @@ theorem scan_escChar (m : Mode) (q : Option Char) (hq : QuoteOK m q) (b0 b1 c : 
     (hb1 : b1 ≠ '\r') (hr : inRange c = true) (hcr : m = .normal → c ≠ '\r') (hgt : m = .canonAttr → c ≠ '>') :
     ∃ b0' b1', b1' ≠ '\r' ∧
       scan q b0 b1 none (escChar m c ++ rest) = pre c (scan q b0' b1' none rest) := by
-  have hqa : q ≠ some '&' := by rcases hq with ⟨h, _⟩ | ⟨h, _⟩ | ⟨h, _⟩ | ⟨h, _⟩ <;> simp [h]
+  have hqa : q ≠ some '&' := by rcases hq with ⟨h, _⟩ | ⟨h, _⟩ | ⟨h, _⟩ | ⟨h, _⟩ | ⟨h, _⟩ <;> simp [h]
   have body : ∀ buf : List Char, (∀ c ∈ buf, c ≠ ';' ∧ c ≠ '<' ∧ c ≠ '&' ∧ c ≠ '"') →
       ∀ c ∈ buf, c ≠ ';' ∧ c ≠ '<' ∧ c ≠ '&' ∧ q ≠ some c := by
     intro buf hb c hc
     obtain ⟨h1, h2, h3, h4⟩ := hb c hc
     refine ⟨h1, h2, h3, ?_⟩
-    rcases hq with ⟨h, _⟩ | ⟨h, _⟩ | ⟨h, _⟩ | ⟨h, _⟩ <;> simp [h, Ne.symm h4]
+    rcases hq with ⟨h, _⟩ | ⟨h, _⟩ | ⟨h, _⟩ | ⟨h, _⟩ | ⟨h, _⟩ <;> simp [h, Ne.symm h4]
   have ref : ∀ buf : List Char, (∀ c ∈ buf, c ≠ ';' ∧ c ≠ '<' ∧ c ≠ '&' ∧ c ≠ '"') → resolve buf = some c →
       ∃ b0' b1', b1' ≠ '\r' ∧
         scan q b0 b1 none ('&' :: (buf ++ ';' :: rest)) = pre c (scan q b0' b1' none rest) := by
@@ -96,28 +97,28 @@ theorem scan_escChar (m : Mode) (q : Option Char) (hq : QuoteOK m q) (b0 b1 c : 
     simpa [hm] using ref ['g', 't'] (by decide) resolve_gt
   by_cases hap : c = '\''
   · subst hap
-    by_cases hm : m = .normal
+    by_cases hm : m = .normal ∨ m = .attrCR
     · simpa [hm] using ref ['a', 'p', 'o', 's'] (by decide) resolve_apos
-    · have : q ≠ some '\'' := by rcases hq with ⟨h, _⟩ | ⟨h, _⟩ | ⟨h, _⟩ | ⟨h, _⟩ <;> simp [h]
+    · have : q ≠ some '\'' := by rcases hq with ⟨h, _⟩ | ⟨h, _⟩ | ⟨h, _⟩ | ⟨h, _⟩ | ⟨h, _⟩ <;> simp [h]
       have := plain (by decide) (by decide) this (by decide) (by decide) (by simp [escChar, hm])
       simpa [escChar, hm] using this
   by_cases hqu : c = '"'
   · subst hqu
     by_cases hm : m = .canonText
-    · have hqn : q = none := by rcases hq with ⟨h, _⟩ | ⟨_, h⟩ | ⟨_, h⟩ | ⟨_, h⟩ <;> simp_all
+    · have hqn : q = none := by rcases hq with ⟨h, _⟩ | ⟨_, h⟩ | ⟨_, h⟩ | ⟨_, h⟩ | ⟨_, h⟩ <;> simp_all
       have := plain (by decide) (by decide) (by simp [hqn]) (by decide) (by decide) (by simp [escChar, hm])
       simpa [escChar, hm] using this
     · simpa [hm] using ref ['q', 'u', 'o', 't'] (by decide) resolve_quot
   by_cases htab : c = '\t'
   · subst htab
-    have hqt : q ≠ some '\t' := by rcases hq with ⟨h, _⟩ | ⟨h, _⟩ | ⟨h, _⟩ | ⟨h, _⟩ <;> simp [h]
+    have hqt : q ≠ some '\t' := by rcases hq with ⟨h, _⟩ | ⟨h, _⟩ | ⟨h, _⟩ | ⟨h, _⟩ | ⟨h, _⟩ <;> simp [h]
     by_cases hm : m = .canonAttr
     · simpa [hm] using ref ['#', 'x', '9'] (by decide) resolve_tab
     · have := plain (by decide) (by decide) hqt (by decide) (by decide) (by simp [escChar, hm])
       simpa [escChar, hm] using this
   by_cases hnl : c = '\n'
   · subst hnl
-    have hqt : q ≠ some '\n' := by rcases hq with ⟨h, _⟩ | ⟨h, _⟩ | ⟨h, _⟩ | ⟨h, _⟩ <;> simp [h]
+    have hqt : q ≠ some '\n' := by rcases hq with ⟨h, _⟩ | ⟨h, _⟩ | ⟨h, _⟩ | ⟨h, _⟩ | ⟨h, _⟩ <;> simp [h]
     by_cases hm : m = .canonAttr
     · simpa [hm] using ref ['#', 'x', 'A'] (by decide) resolve_lf
     · have := plain (by decide) (by decide) hqt (by decide) (by decide) (by simp [escChar, hm])
@@ -127,7 +128,7 @@ theorem scan_escChar (m : Mode) (q : Option Char) (hq : QuoteOK m q) (b0 b1 c : 
     have hm : m ≠ .normal := fun h => hcr h rfl
     simpa [hm] using ref ['#', 'x', 'D'] (by decide) resolve_cr
   · have hqc : q ≠ some c := by
-      rcases hq with ⟨h, _⟩ | ⟨h, _⟩ | ⟨h, _⟩ | ⟨h, _⟩ <;> simp [h] <;> exact fun h' => hqu h'.symm
+      rcases hq with ⟨h, _⟩ | ⟨h, _⟩ | ⟨h, _⟩ | ⟨h, _⟩ | ⟨h, _⟩ <;> simp [h] <;> exact fun h' => hqu h'.symm
     have := plain hg hlt hqc hamp hcrc (by simp [escChar, hamp, hlt, hg, hap, hqu, htab, hnl, hcrc, hr])
     simpa [escChar, hamp, hlt, hg, hap, hqu, htab, hnl, hcrc, hr] using this
 
@@ -171,15 +172,56 @@ theorem text_roundtrip (m : Mode) (hm : m = .canonText ∨ m = .normal) (s : Lis
     rw [scan]; simp
 
 /-- attribute value: `x="` escape(s) `"` reads back as `s` -/
-theorem attr_roundtrip (m : Mode) (hm : m = .normal ∨ m = .canonAttr) (s : List Char) (hs : Lossless m s) (rest : List Char) :
+theorem attr_roundtrip (m : Mode) (hm : m = .normal ∨ m = .canonAttr ∨ m = .attrCR) (s : List Char) (hs : Lossless m s) (rest : List Char) :
     readAttr (escape m s ++ '"' :: rest) = .ok (s, rest) := by
   unfold readAttr
-  have hq : QuoteOK m (some '"') := by rcases hm with h | h <;> simp [QuoteOK, h]
+  have hq : QuoteOK m (some '"') := by rcases hm with h | h | h <;> simp [QuoteOK, h]
   rw [scan_escape m (some '"') hq s hs nul nul (by decide) ('"' :: rest) (.ok ([], rest))]
   · simp [foldr_pre_ok]
   · intro b0' b1' _
     rw [scan]
     have : ¬(b0' = ']' ∧ b1' = ']' ∧ ('"' : Char) = '>') := by simp
     simp [this]
+
+end SamlVerif.XmlText
+
+namespace SamlVerif.XmlText
+
+/-- the normal mode never emits a carriage return except for a carriage return itself -/
+theorem crReplace_escChar_normal (c : Char) : crReplace (escChar .normal c) = escChar .attrCR c := by
+  unfold escChar crReplace
+  by_cases h1 : c = '&'
+  · subst h1; decide
+  by_cases h2 : c = '<'
+  · subst h2; decide
+  by_cases h3 : c = '>'
+  · subst h3; decide
+  by_cases h4 : c = '\''
+  · subst h4; decide
+  by_cases h5 : c = '"'
+  · subst h5; decide
+  by_cases h6 : c = '\t'
+  · subst h6; decide
+  by_cases h7 : c = '\n'
+  · subst h7; decide
+  by_cases h8 : c = '\r'
+  · subst h8; decide
+  · simp only [h1, h2, h3, h4, h5, h6, h7, h8, if_false]
+    by_cases hr : inRange c = true
+    · simp [hr, h8]
+    · have hr' : inRange c = false := by simpa using hr
+      simp only [hr']
+      simp
+
+theorem crReplace_append (a b : List Char) : crReplace (a ++ b) = crReplace a ++ crReplace b := by
+  unfold crReplace; simp
+
+/-- what the library writes for an attribute value: etree's normal mode, carriage returns replaced -/
+theorem crReplace_escape_normal (s : List Char) : crReplace (escape .normal s) = escape .attrCR s := by
+  induction s with
+  | nil => rfl
+  | cons c cs ih =>
+    simp only [escape, List.flatMap_cons] at ih ⊢
+    rw [crReplace_append, crReplace_escChar_normal, ih]
 
 end SamlVerif.XmlText
